@@ -44,6 +44,10 @@ def units(tier):
         for a in itertools.product(opsa, repeat=2):
             for b in itertools.product(opsb, repeat=2):
                 us.append({"name": f"il_{sa[0]}{sb[0]}_{'+'.join(a)}__{'+'.join(b)}", "shape": {"kind": "il", "sa": sa, "sb": sb, "a": list(a), "b": list(b)}})
+    # unknown result codes far outside the enumeration, concrete: what one session has seen must not
+    # change what the other gets for a different code (process-wide tables keyed by such values)
+    for i, (x, y) in enumerate([(-1, 2**32 - 1), (2**32 - 1, -1), (666, 2**32 + 666), (2**31, -(2**31)), (-1, -1), (2**64 + 5, 5)]):
+        us.append({"name": f"il_codes_{i}", "shape": {"kind": "il", "sa": "client", "sb": "client", "a": ["extended", f"recv_xr#{x}"], "b": ["extended", f"recv_xr#{y}"]}})
     for mask in range(8):
         us.append({"name": f"reg_{mask}", "shape": {"kind": "reg", "mask": mask}})
     # histories of registrations and deliveries on ONE session: decode before and after
@@ -167,6 +171,11 @@ def do(ctx, sess_, side, op, tag, types):
                 ctl = C.LDAPControl("1.2.840.113556.1.4.417", False, ctx.bytes(f"{tag}.cv", 1))
             data = M.ExtendedRequest(mid, [ctl], "1.2", None).pack(sess.po(ctx))
             ret = sess_.receive(data)
+        elif op.startswith("recv_xr#"):
+            code = int(op.split("#", 1)[1])
+            msg = M.ExtendedResponse(1, [], M.LDAPResult(M.LDAPResultCode(code), "", ""), None, None)
+            got = sess_.receive(msg.pack(sess.po(ctx)))
+            ret = [(type(m).__name__, m.message_id, int(m.result.result_code.value), m.result.result_code.name) for m in got]
         elif op == "recv_custom":
             p = ctx.bytes(f"{tag}.pl", 1)
             mid = ctx.int(f"{tag}.mid", 0, sess.IDMAX)
